@@ -33,6 +33,30 @@ def targets(prog, call):
     return t
 
 
+def _value_refs(n):
+    """variable references whose value the expression may evaluate to: through casts, parentheses and both arms of `c ? a : b`"""
+    n = core(n)
+    while n is not None and n["k"] == "Paren" and n.get("ch"):
+        n = core(n["ch"][0])
+    if n is None:
+        return []
+    if n["k"] == "Ref":
+        return [n]
+    if n["k"] == "Cond" and len(n.get("ch") or []) == 3:
+        return _value_refs(n["ch"][1]) + _value_refs(n["ch"][2])
+    return []
+
+
+def _in_local_object(lhs):
+    """`e.key = p` / `a[i] = p` where e / a is an object (not a pointer) on this function's own stack: the store dies with the frame"""
+    n = lhs
+    while n is not None and ((n["k"] == "Member" and not n.get("arrow")) or n["k"] == "Subscript") and n.get("ch"):
+        n = strip(n["ch"][0])
+        while n is not None and n["k"] == "Cast" and n.get("ch"):
+            n = strip(n["ch"][0])
+    return n is not None and n["k"] == "Ref" and n.get("dk") == "local"
+
+
 def stores(prog, skip_components=("test",)):
     out = {}
     fns = [f for f in prog.all_functions() if f.component not in skip_components]
@@ -45,13 +69,15 @@ def stores(prog, skip_components=("test",)):
                 continue
             for n in f.walk():
                 if n["k"] == "Assign" and n.get("op", "=") == "=":
-                    lhs, rhs = strip(n["ch"][0]), core(n["ch"][1])
-                    if rhs is not None and rhs["k"] == "Ref" and rhs.get("d") in pd and "*" in f.ty(rhs):
-                        if lhs["k"] in ("Member", "Subscript") or (lhs["k"] == "Ref" and lhs.get("dk") in ("global", "field")):
-                            k = (f.key, pd[rhs["d"]])
-                            if k not in out:
-                                out[k] = "%s stores it (%s)" % (f.name, f.where(n))
-                                changed = True
+                    lhs = strip(n["ch"][0])
+                    for rhs in _value_refs(n["ch"][1]):
+                        if rhs.get("d") in pd and "*" in f.ty(rhs):
+                            if (lhs["k"] in ("Member", "Subscript") and not _in_local_object(lhs)) or \
+                                    (lhs["k"] == "Ref" and lhs.get("dk") in ("global", "field")):
+                                k = (f.key, pd[rhs["d"]])
+                                if k not in out:
+                                    out[k] = "%s stores it (%s)" % (f.name, f.where(n))
+                                    changed = True
                 elif n["k"] == "Call":
                     for i, x in enumerate(call_args(n)):
                         c = core(x)
